@@ -225,8 +225,8 @@ class Check:
             return self._overlay
         rep = {}
         H = os.path.join(VERIF, "harness")
-        for f in glob.glob(os.path.join(H, "verifkit", "*.go")):
-            rep[os.path.join(REPO, "internal", "verifkit", os.path.basename(f))] = f
+        for f in glob.glob(os.path.join(H, "verifkit", "**", "*.go"), recursive=True):
+            rep[os.path.join(REPO, "internal", "verifkit", os.path.relpath(f, os.path.join(H, "verifkit")))] = f
         for d in glob.glob(os.path.join(H, "export", "*")):
             pkg = os.path.basename(d).replace("__", "/")
             for f in glob.glob(os.path.join(d, "*.go")):
